@@ -104,11 +104,48 @@ theorem dbAuthenticate_iff (s : Srv) (uid : Bytes) (nowSec : Int) :
       have : u = u' := by simpa using he
       subst this; exact h
 
+/-! ### the proxy book: a name is found if it is written like an entry, in any (ASCII) case
+
+C06 ("every … option value the configuration allows") meets C07 ("a proxy method it serves"): `parseProxyBook` keeps
+the operator's names lower-cased, so the admission test and `serveSession` must look a received name up lower-cased too.
+Before /repo's fix the lookup used the name as received and a ProxyMethod written exactly like its mixed-case ProxyBook
+entry — the documented way — was refused (`pinned_mixed_case_refused`). -/
+
+theorem gen_proxy_book :
+    Gen.Auth.proxyLookupLowercases = true ∧ Gen.Auth.proxyBookLowercasedAtLoad = true ∧
+    Gen.Auth.proxyLookupSameKeyInServe = true := by decide
+
+/-- the book the server holds for the names the operator wrote -/
+def loadBook (names : List Bytes) : List Bytes :=
+  if Gen.Auth.proxyBookLowercasedAtLoad then names.map lowerAscii else names
+
+/-- a client configured with a name that equals a ProxyBook entry up to ASCII case passes the served-method test -/
+theorem c06_method_found (names : List Bytes) (n m : Bytes) (hn : n ∈ names) (hc : lowerAscii m = lowerAscii n) :
+    (loadBook names).contains (bookKey m) = true := by
+  unfold loadBook bookKey
+  rw [gen_proxy_book.1, gen_proxy_book.2.1]
+  simp only [if_true, List.contains_eq_mem, decide_eq_true_eq, List.mem_map]
+  exact ⟨n, hn, hc.symm⟩
+
+/-- and only such names pass it -/
+theorem c07_method_served_only (names : List Bytes) (m : Bytes) (h : (loadBook names).contains (bookKey m) = true) :
+    ∃ n ∈ names, lowerAscii n = lowerAscii m := by
+  unfold loadBook bookKey at h
+  rw [gen_proxy_book.1, gen_proxy_book.2.1] at h
+  simpa only [if_true, List.contains_eq_mem, decide_eq_true_eq, List.mem_map] using h
+
+/-- the defect repaired in /repo: with the lookup key taken as received, the entry `MixedCaseSS` (kept as
+`mixedcasess`) is not found under the very name the operator wrote -/
+theorem pinned_mixed_case_refused :
+    let name : Bytes := [77, 105, 120, 101, 100, 67, 97, 115, 101, 83, 83]   -- "MixedCaseSS"
+    ([name].map lowerAscii).contains name = false ∧ ([name].map lowerAscii).contains (lowerAscii name) = true := by
+  decide
+
 /-- the credentials clause of the property for an authenticated `info` -/
 def Entitled (s : Srv) (info : ClientInfo) (now : Int) : Prop :=
   info.enc.toNat ≤ 3 ∧
   ((s.adminUID ≠ [] ∧ info.uid = s.adminUID ∧ info.sid = 0) ∨
-   (info.method ∈ s.proxyBook ∧
+   (bookKey info.method ∈ s.proxyBook ∧
      (info.uid ∈ s.bypass ∨ isActive s info.uid = true ∨ StoreAuthorises s info.uid (now / 1000000000))))
 
 /-- a complete first packet carrying valid, timely, fresh credentials -/
@@ -223,9 +260,9 @@ theorem dispatchInfo_entitled (s : Srv) (info : ClientInfo) (now : Int) (d : Dec
       exact ⟨⟨henc', Or.inl hg'⟩, by simp, by simp [henc', hg']⟩
     · simp only [hg, if_false] at h
       have hng : ¬ (s.adminUID ≠ [] ∧ info.uid = s.adminUID ∧ info.sid = 0) := fun hc => hg (hgate.2 hc)
-      by_cases hm : s.proxyBook.contains info.method = true
+      by_cases hm : s.proxyBook.contains (bookKey info.method) = true
       · simp only [hm, Bool.not_true, Bool.false_eq_true, if_false] at h
-        have hm' : info.method ∈ s.proxyBook := by simpa using hm
+        have hm' : bookKey info.method ∈ s.proxyBook := by simpa using hm
         by_cases hu : (!(isBypass s info.uid) && !(isActive s info.uid) && !(dbAuthenticate s info.uid (now / 1000000000))) = true
         · simp only [hu, if_true] at h; exact absurd h.symm hd
         · simp only [hu, if_false] at h
@@ -458,7 +495,7 @@ exactly like the same packet of a user that is not active. -/
 theorem c07_refused_session_web (s : Srv) (info : ClientInfo) (now : Int)
     (henc : Gen.Auth.encMethods.contains (info.enc.toNat : Int) = true)
     (hgate : Gen.Auth.adminGate (s.adminUID.length : Int) (info.uid == s.adminUID) (info.sid : Int) = false)
-    (hm : s.proxyBook.contains info.method = true)
+    (hm : s.proxyBook.contains (bookKey info.method) = true)
     (hbyp : isBypass s info.uid = false)
     (hnew : (sessionsOf s info.uid).contains info.sid = false)
     (hrefuse : dbAuthoriseSession s info.uid (now / 1000000000) (sessionsOf s info.uid).length = false) :
